@@ -32,7 +32,7 @@ func (p *Parser) ParseDeactivateOperation(request []byte, batch bool) (*model.Op
 		return nil, errors.New("signed did suffix mismatch for deactivate")
 	}
 
-	err = hashing.IsValidModelMultihash(signedData.RecoveryKey, schema.RevealValue)
+	err = hashing.IsValidModelMultihash(p.keyAsTransmitted(schema.SignedData, "recoveryKey", signedData.RecoveryKey), schema.RevealValue)
 	if err != nil {
 		return nil, fmt.Errorf("canonicalized recovery public key hash doesn't match reveal value: %s", err.Error())
 	}
